@@ -84,6 +84,28 @@ theorem saved_row_valid (hI : InitConsistent D) (hK : KeysDistinct D.acts)
     Valid D (setAll D (run D h') (run D h).flags) :=
   (syncTo_valid hI hK (canon_of_history hI hK h') (canon_of_history hI hK h) hv).2.1
 
+/-- **The engine spec's `World` abstraction is sound.**  `Crem/Model/Engine.lean` (C14) treats
+"valid against the scenario" as a function `World.valid` of the scenario and the active set alone, while
+the real engine evaluates it on a live model that has been through every earlier request (table uploads,
+per-subcatchment updates, encoding patches: whole-set loads and single sets).  Whatever that history was,
+the live model's validity verdict is the verdict of a fresh model given exactly its active set — so it IS
+a function of the set, and any two routes to one set carry the same `ValidAgainstScenario` entry. -/
+theorem validity_is_a_function_of_the_set (hI : InitConsistent D) (hK : KeysDistinct D.acts) (txs : List Tx) :
+    stateIsValid D (run D txs) = stateIsValid D (setAll D (init D) (run D txs).flags) := by
+  have hc := canon_of_history hI hK txs
+  have hfl := setAll_init_flags hI hK (run D txs).flags hc.len
+  have hfresh := setAll_canon hI.facts hK (canon_init hI) (run D txs).flags
+  have hs : SameVals (run D txs) (setAll D (init D) (run D txs).flags) := hc.sameVals hfresh hfl
+  have := hs.valid (D := D)
+  unfold Valid at this
+  cases h1 : stateIsValid D (run D txs) <;> cases h2 : stateIsValid D (setAll D (init D) (run D txs).flags) <;>
+    simp_all
+
+theorem validity_route_independent (hI : InitConsistent D) (hK : KeysDistinct D.acts) (h₁ h₂ : List Tx)
+    (hf : (run D h₁).flags = (run D h₂).flags) :
+    stateIsValid D (run D h₁) = stateIsValid D (run D h₂) := by
+  rw [validity_is_a_function_of_the_set hI hK h₁, validity_is_a_function_of_the_set hI hK h₂, hf]
+
 /-! ### non-vacuity (tests, labelled as such): the example dataset and histories of `Properties/C01.lean` -/
 
 /-- the run's model ends in the set {1, 2}; the decompression model has just served the set {0} -/
